@@ -51,9 +51,12 @@ type c11base struct {
 	h http.Header
 }
 
-func (b *c11base) Header() http.Header         { return b.h }
-func (b *c11base) WriteHeader(code int)        { b.l.add("baseHeader", fmt.Sprint(code), nil) }
-func (b *c11base) Write(p []byte) (int, error) { b.l.add("baseWrite", fmt.Sprint(len(p)), nil); return len(p), nil }
+func (b *c11base) Header() http.Header  { return b.h }
+func (b *c11base) WriteHeader(code int) { b.l.add("baseHeader", fmt.Sprint(code), nil) }
+func (b *c11base) Write(p []byte) (int, error) {
+	b.l.add("baseWrite", fmt.Sprint(len(p)), nil)
+	return len(p), nil
+}
 
 type wrapU struct{ http.ResponseWriter }
 
@@ -122,7 +125,7 @@ func c11gen(r *rand.Rand) []c11op {
 
 type c11get struct {
 	store, key, val string
-	ok               bool
+	ok              bool
 }
 
 // c11run executes the program behind the real LoadClientStateMiddleware.
@@ -367,7 +370,7 @@ func min(a, b int) int {
 func init() {
 	register(&Check{
 		ID: "C11", Level: "exploration",
-		Rule: "random handler programs (0-25 operations over putS/delS/delAllS/putC/delC/getS/getC/WriteHeader/Write and nesting the writer in wrappers exposing UnderlyingResponseWriter() or Unwrap(), depth <= 4) executed by a handler behind the real LoadClientStateMiddleware with two recording stores and a recording base writer sharing one sequence counter. Offline checker over the log: each store receives <= 1 delivery, exactly the operations made for it before the first write, same order/keys/values, never the other store's; every delivery precedes the first header or body byte released to the base writer; operations after the first write are never delivered; every read returns the request-start value whatever was put earlier. distinct_nontrivial = distinct program shapes (#ops, #ops before first write, #writes, wrapper depth, kind of first write).",
+		Rule:  "random handler programs (0-25 operations over putS/delS/delAllS/putC/delC/getS/getC/WriteHeader/Write and nesting the writer in wrappers exposing UnderlyingResponseWriter() or Unwrap(), depth <= 4) executed by a handler behind the real LoadClientStateMiddleware with two recording stores and a recording base writer sharing one sequence counter. Offline checker over the log: each store receives <= 1 delivery, exactly the operations made for it before the first write, same order/keys/values, never the other store's; every delivery precedes the first header or body byte released to the base writer; operations after the first write are never delivered; every read returns the request-start value whatever was put earlier. distinct_nontrivial = distinct program shapes (#ops, #ops before first write, #writes, wrapper depth, kind of first write).",
 		Units: func(t string) int { return tierN(t, 64, 256) },
 		Run:   c11Unit,
 		Floors: func(t string) map[string]int {
